@@ -227,11 +227,11 @@ func propDouble(t *rapid.T) {
 	alias := rapid.Bool().Draw(t, "alias")
 	want := ref.BaseMul(u1).Add(p.Mul(u2))
 	lp := lib.Pt(p)
-	rcv := secp256k1.NewIdentityPoint()
+	rcv, rk := lib.Receiver(rapid.IntRange(0, lib.ReceiverKinds-1).Draw(t, "rcv"))
 	if alias {
-		rcv = lp
+		rcv, rk = lp, "aliases-P"
 	}
-	cl := []string{"rel:" + rel}
+	cl := []string{"rel:" + rel, "receiver:" + rk}
 	if want.Inf {
 		cl = append(cl, "result=O")
 	}
